@@ -12,7 +12,7 @@ PROP = dict(
                floors={"array_append": 1000, "array_insert": 1000, "array_set": 1000, "array_slice": 1000, "buffer_cut": 1000,
                        "array_reserve": 1000, "printf": 1000, "slice_write": 1000, "state:shared": 5000, "state:immutable": 200,
                        "state:nocopy": 200, "history:had-shared-buffer": 5000}),
-          dict(name="c04_cxx", src=["c04_cxx.cpp"], libs=["mpt++", "mptio", "mptplot", "mptcore"], batch=512, lsan=True,
+          dict(name="c04_cxx", memcheck=500, src=["c04_cxx.cpp"], libs=["mpt++", "mptio", "mptplot", "mptcore"], batch=512, lsan=True,
                floors={"insert": 1000, "append": 1000, "set": 1000, "printf": 1000, "slice_write": 500, "state:shared": 5000,
                        "typed_array_insert": 2000, "unique_array_insert": 1000, "map_set": 2000, "map_get": 2000,
                        "pointer_compact": 2000})],
